@@ -242,6 +242,10 @@ class Metrics(Part):
         if case.get("mapping_rejected"):
             raise Skip("rejected_by_compiler", "mapping")
         spec = case["spec"]
+        from . import c11
+        for name in ("merger_restores_input_spelling", "merger_init_reorders_flatten_constituents"):
+            if c11.EXCLUDED[name](case):
+                raise Skip("known-finding-of-other-property", name)
         hf = oracle.compile_or_skip(spec, metrics=True, crash_is_violation=False)
         text = str(hf)
         tree = assert_closed(text, spec, what="metrics-mode program")
